@@ -91,7 +91,9 @@ func (w *World) ApplyTx(raw []byte, res TxResult) TxOutcome {
 	out.Decoded = true
 	out.Type = tx.Type
 	w.txIdx++
-	if w.EVM != nil && w.isContractPath(tx) {
+	// (an accepted transfer to an ex-contract that was charged like a native tx took the native path)
+	exNative := tx.Type == ctypes.TRX_TRANSFER && len(tx.To) == 20 && w.Dead[ak(tx.To)] && res.Code == 0 && uint64(res.GasUsed) == tx.Gas
+	if w.EVM != nil && w.isContractPath(tx) && !(exNative && !w.EVM.hasCode(tx.To)) {
 		w.txIdx--
 		w.applyEVMTx(tx, raw, res, &out)
 		w.txIdx++
@@ -148,6 +150,12 @@ func (w *World) ApplyTx(raw []byte, res TxResult) TxOutcome {
 	if tx.Type == ctypes.TRX_TRANSFER {
 		if rc, ok := w.Accts[ak(tx.To)]; ok && rc.Code != nil {
 			contractPath = true
+			if w.Dead[ak(tx.To)] {
+				// a transfer to an address whose contract self-destructed: no property says which path it takes
+				// (it is a plain account for the EVM); the charge must be exact for the path the node reports.
+				contractPath = uint64(res.GasUsed) != tx.Gas
+				w.Feat["transfer_to_ex_contract"]++
+			}
 		}
 	}
 
@@ -474,10 +482,9 @@ func (w *World) afterTemplateCall(tx *ctypes.Trx) {
 	}
 	rc, snd := w.acct(tx.To), w.acct(tx.From)
 	snd.Bal.Add(snd.Bal, rc.Bal)
-	rc.Bal = u256(0)
+	rc.Bal, rc.Nonce = u256(0), 0 // the account ceases to exist
 	delete(w.Contracts, k)
-	w.Dead[k] = true // retired: see known finding F10b (the native ledger keeps nonce and code marker)
-	w.Excluded["F10b:selfdestructed_contract_retired"]++
+	w.Dead[k] = true // ex-contract: still addressable (a plain account as far as the EVM is concerned)
 	w.Feat["suicider_destroyed"]++
 }
 
